@@ -447,6 +447,9 @@ func TestVF_C11_Witness(t *testing.T) {
 		what += fmt.Sprintf(" - answered (%d bytes, err=%v)", len(out), err)
 	}
 	st.KnownResult(c11FindingLivelock, still, what)
+	if still && !vfkit.Known(c11FindingLivelock) {
+		t.Fatalf("regression of a repaired finding (%s is not listed as known): %s", c11FindingLivelock, what)
+	}
 	st.NonTrivial("witness", still)
 	st.Sample(map[string]any{"result": what})
 	t.Log(what)
@@ -487,6 +490,9 @@ func TestVF_C11_WitnessMemberID(t *testing.T) {
 		what += "reply decodes at v4"
 	}
 	st.KnownResult(c11FindingMemberID, msg != "", what)
+	if msg != "" && !vfkit.Known(c11FindingMemberID) {
+		t.Fatalf("regression of a repaired finding (%s is not listed as known): %s", c11FindingMemberID, what)
+	}
 	st.NonTrivial("witness-memberid", msg != "")
 	st.Sample(map[string]any{"result": what})
 	t.Log(what)
